@@ -249,6 +249,7 @@ func checkPoolOrderSSA(c *core.Ctx, p *progFacts, rule string, f *ssa.Function) 
 		return 0, 0
 	}
 	nPools = 1
+	boundsCallers = p.callers
 	checkPoolSizes(c, rule, f)
 	c.Count("closes_under_completion_token", checkCloseDiscipline(c, p, rule, f))
 	var chans []*ssa.MakeChan
